@@ -297,6 +297,40 @@ def run(rep, tier, seed, pa):
             if used_fast != (bws != np.inf):
                 rep.violation("job-dispatch", {"units": case["units"], "dissim": case["spec"], "best_window_size": str(bws)},
                               "fast-mode job used the %s algorithm with best_window_size = %s" % ("windowed" if used_fast else "exact", bws))
+    # the window size fast-mode gamma measures for itself (continua large enough for a finite one): it must be a window size the theorems cover
+    # (an integer >= 1, below the largest number of units of an annotator, or infinity = exact route), and the job run with it ends in a partition
+    big_lines, big_meta = [], []
+    for bi in range(3 if tier == "quick" else 12):
+        n = rng.choice([5, 5, 4])
+        units = gen.gen_units(rng, n, [rng.randrange(10, 15) if n == 5 else rng.randrange(13, 17) for _ in range(n)], rng.choice(["perturbed", "perturbed", "random"]), gen.LABEL_SETS["abc"])
+        spec = rng.choice([("pos", 1.0), ("comb", 1.0, 1.0, 1.0, "abs", "abc", "asis")])
+        cont = gen.build_continuum(pa, units)
+        dissim = gen.make_dissim(pa, spec)
+        data = {"units": units, "dissim": spec, "window": "measured"}
+        rep.case(sample={"measured_window_for": [len(u) for u in units]})
+        try:
+            cont.measure_best_window_size(dissim)
+            bws = cont.best_window_size
+            fast = ac.run_forked(120, _compute_fast_alignment_job, dissim, cont)
+        except ac.Watchdog:
+            rep.violation("does-not-terminate", data, "fast-mode job with the measured window size did not return within 120 s")
+            continue
+        except Exception as e:
+            rep.violation("job-raises", dict(data, error=repr(e)), "measuring the window size / the fast job raised %r" % (e,))
+            continue
+        rep.count("measured_window=" + ("inf" if bws == np.inf else "finite"))
+        mx = max(len(u) for u in units)
+        if not (bws == np.inf or (float(bws) == int(bws) and 1 <= int(bws) <= max(2, mx) - 1)):
+            rep.violation("measured-window", dict(data, best_window_size=str(bws)), "measured window size %r is not an integer in [1, %d] nor infinity" % (bws, max(2, mx) - 1))
+            continue
+        data["window"] = str(bws)
+        I = Inst(cont, dissim)
+        fast.continuum = cont
+        big_lines.append(ac.sizes_line(3, I, [I.index_tuple(ua.n_tuple) for ua in fast.unitary_alignments]))
+        big_meta.append(data)
+    for data, out in zip(big_meta, run_model(big_lines)):
+        if out != [1]:
+            rep.violation("not-a-partition", data, "fast-mode job with the measured window size %s: result is not a partition of the units (verified checker: %r)" % (data["window"], out))
     sample = [l for l in lines if len(l) < 1200][:6]
     coq = coq_eval(sample)
     oc = run_model(sample)
